@@ -11,6 +11,7 @@ pub mod model;
 pub mod props;
 pub mod resp;
 pub mod runner;
+pub mod sha1;
 pub mod sut;
 
 /// Number of parallel workers (each owns one child server) for black-box checks.
